@@ -117,6 +117,29 @@ CHECKS = {
         "mutually inverse; the semilegal/legal readers return Ok only after semi_validate/validate of the converted text on that board; "
         "Null is never semilegal. 'Succeeds exactly when such a move exists' additionally needs C06/C01 and is not decided here.",
    note=TB + "quick tier tabulates 6 representative source cells and 3 promotion values per colour, thorough all 13 x 5."),
+ "C17": dict(cat="other", ref="DESIGN.md §3 C17",
+   technique="loop-structure and index-discipline rules on the walker's effect trees; exhaustive GameStatus table; type facts",
+   text="Static: set_board_pos has a backward and a forward loop whose guards compare board_pos with the target (it can only exit with "
+        "equality), unmake after decrement / make before increment on stack[board_pos]; next/prev update pos, synchronise the board to "
+        "exactly the index of the move they return and hand out the walker's own board; the walker holds a shared slice and an owned "
+        "board; GameStatus::from tabulated on all 23 inputs; list separator and from_uci_list structure. The shown positions then follow "
+        "from C03/C04; styled text and numbering are not decided.",
+   note=TB + "E0502 borrow witness runs in the thorough tier."),
+ "C18": dict(cat="other", ref="DESIGN.md §3 C18",
+   technique="compile-time witnesses, table and tabulated-function mirror checks, dispatcher pairing, colour-branch inventory, index-function consistency lint",
+   text="Static, premises only: Black's geometry constants are mirrors of White's and anchored to the rules (CTFE witness); pawn attack "
+        "tables are rank mirrors and all near tables file-symmetric; pawns::advance_* tabulated mirror-consistent; every colour dispatcher "
+        "pairs colours with matching instances; every run-time colour branch in position logic is a checked pair or reviewed; DIAG/ANTIDIAG "
+        "are indexed by their own numbering function. The behavioural symmetry of move sets and outcomes is not decided.",
+   note=TB + "Reviewed list of 19 colour-branching functions in rules/symrules.py, one reason each."),
+ "C20": dict(cat="other", ref="DESIGN.md §3 C20",
+   technique="compile-time witness crate (rustc const evaluation, exhaustive loops) + constant-folding tabulation of char tables, operators, Coord::shift",
+   text="Static: everything const-evaluable is asserted exhaustively by rustc's own constant evaluator (index round trips, square/file/"
+        "rank/flip/diagonal arithmetic, named constant sets on all 64 squares, cell/colour/castling-rights algebra, bitboard set operations "
+        "on all one- and two-square sets); from_char accepts exactly the documented spellings on 0x300 code points and inverts as_char; "
+        "operators are the u64 primitive; Coord::shift tabulated on 23,104 points. String-level round trips, deposit_bits and iteration "
+        "order are not decided (they need evaluation over 64-bit data).",
+   note=TB + "The witness crate is type-checked by stable cargo against /repo's chess_base."),
 }
 
 NOT_YET = {}
